@@ -118,6 +118,15 @@ inductive Out where
   | bytes (b : List UInt8)
 deriving Repr, DecidableEq
 
+/-- what the sender keeps of one block of the receiver's file (`rsync.SumBuf`) -/
+structure SumRec where
+  index : Int32
+  offset : Int
+  len : Int
+  sum1 : UInt32
+  sum2 : List UInt8
+deriving Repr, DecidableEq
+
 /-- a received file-list entry (receiver/flist.go `File`): the fields the translated code assigns; names and link
 targets are byte strings, the modification time is the 32-bit number of seconds read from the wire -/
 structure FileRec where
